@@ -21,6 +21,7 @@ KINDS = {
     'auto': (['length = Int(1).describe(Auto(lambda pkt: len(pkt.a)))', 'a = Data(length)'], None),
     'run': (['x = Int(1)', "length = Int(1).describe(AutoLength('a'))", 'y = Int(2)', 'a = Data(length)'], None),
     'sub': (["length = Int(1).describe(AutoLength('a'))", 'a = Data(length)'], ['pre = Int(1)', 'body = Ref(K)', 'post = Int(1)']),
+    'sub-proto': (["length = Int(1).describe(AutoLength('a'))", 'a = Data(length)'], ['pre = Int(1)', 'body = Ref(K(length=5, a=b"xy"))', 'post = Int(1)']),
     # two described fields, a struct-coded one before one without struct code (the sync hooks are indexed)
     'two': (["length = Int(1).describe(AutoLength('a'))", "m = Int(3).describe(AutoLength('b'))", 'a = Data(length)', "b = Data(m, default=b'pq')"], None),
     'two-rev': (["m = Int(3).describe(AutoLength('b'))", "length = Int(1).describe(AutoLength('a'))", "b = Data(m, default=b'pq')", 'a = Data(length)'], None),
@@ -46,7 +47,7 @@ def encode(kind, length, a):
     body = bytes([length & 0xff]) + a
     if kind == 'run':
         return b'\x00' + bytes([length & 0xff]) + b'\x00\x00' + a
-    if kind == 'sub':
+    if kind in ('sub', 'sub-proto'):
         return b'\x00' + body + b'\x00'
     if kind == 'two':
         return bytes([length & 0xff]) + b'\x00\x00\x02' + a + b'pq'
@@ -56,13 +57,15 @@ def encode(kind, length, a):
 
 
 def raw_for(kind, r):
+    if kind == 'sub-proto':
+        return b'\x00' + r + b'\x00'
     if kind == 'two':
         return r[:1] + b'\x00\x00\x02' + r[1:] + b'pq'
     if kind == 'two-rev':
         return b'\x00\x00\x02' + r[:1] + b'pq' + r[1:]
     if kind == 'run':
         return b'\x00' + r[:1] + b'\x00\x00' + r[1:]
-    if kind == 'sub':
+    if kind in ('sub', 'sub-proto'):
         return b'\x00' + r + b'\x00'
     return r
 
@@ -85,7 +88,7 @@ def start(kind, mod, init):
     m = Model()
     if init[0] == 'new':
         kw = dict(init[1])
-        if kind == 'sub':
+        if kind in ('sub', 'sub-proto'):
             top = mod.W(body=mod.K(**kw))
             tgt = top.body
         else:
@@ -96,17 +99,17 @@ def start(kind, mod, init):
             m.enabled, m.explicit = False, kw['length']
     else:
         r = init[1]
-        cls = mod.W if kind == 'sub' else mod.K
+        cls = mod.W if kind in ('sub', 'sub-proto') else mod.K
         top = cls.unpack(raw_for(kind, r))
-        tgt = top.body if kind == 'sub' else top
+        tgt = top.body if kind in ('sub', 'sub-proto') else top
         m.a = r[1:1 + r[0]]
     return top, tgt, m
 
 
 def run_history(kind, mod, init, hist):
     """returns (error or None, canonical model state, transitions)"""
-    by_top = (mod.W(body=mod.K(a=b'q')) if kind == 'sub' else mod.K(a=b'q'))
-    by_tgt = by_top.body if kind == 'sub' else by_top
+    by_top = (mod.W(body=mod.K(a=b'q')) if kind in ('sub', 'sub-proto') else mod.K(a=b'q'))
+    by_tgt = by_top.body if kind in ('sub', 'sub-proto') else by_top
     try:
         top, tgt, m = start(kind, mod, init)
     except Exception as e:
@@ -125,9 +128,9 @@ def run_history(kind, mod, init, hist):
                 del tgt.length
                 m.enabled = True
             elif op[0] == 'unpack':
-                cls = mod.W if kind == 'sub' else mod.K
+                cls = mod.W if kind in ('sub', 'sub-proto') else mod.K
                 top = cls.unpack(raw_for(kind, op[1]))
-                tgt = top.body if kind == 'sub' else top
+                tgt = top.body if kind in ('sub', 'sub-proto') else top
                 m = Model()
                 m.a = op[1][1:1 + op[1][0]]
             elif op[0] == 'pack':
@@ -156,12 +159,12 @@ def run_history(kind, mod, init, hist):
 
 def snippet(kind, path, init, hist):
     lines = [mk.HEADER + source(kind, path)]
-    top = 'W' if kind == 'sub' else 'K'
+    top = 'W' if kind in ('sub', 'sub-proto') else 'K'
     if init[0] == 'new':
         kw = ', '.join('%s=%r' % kv for kv in init[1].items())
-        lines.append('p = W(body=K(%s)); t = p.body' % kw if kind == 'sub' else 'p = t = K(%s)' % kw)
+        lines.append('p = W(body=K(%s)); t = p.body' % kw if kind in ('sub', 'sub-proto') else 'p = t = K(%s)' % kw)
     else:
-        lines.append('p = %s.unpack(%r); t = %s' % (top, raw_for(kind, init[1]), 'p.body' if kind == 'sub' else 'p'))
+        lines.append('p = %s.unpack(%r); t = %s' % (top, raw_for(kind, init[1]), 'p.body' if kind in ('sub', 'sub-proto') else 'p'))
     for op in hist:
         if op[0] == 'set_a':
             lines.append('t.a = %r' % op[1])
@@ -172,7 +175,7 @@ def snippet(kind, path, init, hist):
         elif op[0] == 'pack':
             lines.append('p.pack()')
         else:
-            lines.append('p = %s.unpack(%r); t = %s' % (top, raw_for(kind, op[1]), 'p.body' if kind == 'sub' else 'p'))
+            lines.append('p = %s.unpack(%r); t = %s' % (top, raw_for(kind, op[1]), 'p.body' if kind in ('sub', 'sub-proto') else 'p'))
     lines.append('print(t.length, t.a, p.pack())')
     return '\n'.join(lines)
 
